@@ -6,7 +6,7 @@ from __future__ import annotations
 from . import ir as IR
 
 
-def build_plan(pid, job, model, k, root_map_items=None):
+def build_plan(pid, job, model, k, root_pool=False):
     """model: normalized Predict result (calls with frame/step/path/idx).  Returns the JSON plan."""
     nodes = dict(IR.all_nodes(job["prog"]))
     frames = [{"ptask": 0, "nsteps": 0, "item": 0, "path": ""}]
@@ -44,6 +44,12 @@ def build_plan(pid, job, model, k, root_map_items=None):
         key = (t["frame"], t["step"])
         seen[key] = seen.get(key, 0) + 1
         t["pos"] = seen[key]
+    if root_pool:
+        # runner.map(graph, ..., max_concurrency=k): the top-level mapped node stands for the map call,
+        # whose items are taken from a queue by min(k, n) workers (HGSched StartItem)
+        tops = [t for t in tasks if t["frame"] == 1]
+        assert len(tops) == 1 and tops[0]["kind"] == "map"
+        tops[0]["kind"] = "pool"
     return {"id": pid, "k": k or 0, "tasks": tasks, "frames": frames}
 
 
